@@ -67,15 +67,18 @@ fn pentry() -> impl Strategy<Value = PEntry> {
     ]
 }
 
-fn tval(mandatory: bool) -> impl Strategy<Value = TVal> {
+fn tval(mandatory: bool) -> BoxedStrategy<TVal> {
+    if !mandatory {
+        return prop_oneof![3 => Just(TVal::Unset), 5 => tval(true)].boxed();
+    }
+    // (no Unset alternative here: proptest would shrink towards it and turn every failure into "mandatory variable missing")
     prop_oneof![
-        if mandatory { 0 } else { 3 } => Just(TVal::Unset),
-        1 => Just(TVal::Val(vec![])),
         3 => Just(TVal::Val(b"linux".to_vec())),
         2 => Just(TVal::Val(b"v8".to_vec())),
         1 => Just(TVal::Val("ünï çødé 24.04".as_bytes().to_vec())),
         1 => Just(TVal::Val(b" spaced value ".to_vec())),
     ]
+    .boxed()
 }
 
 fn descriptor_strategy() -> impl Strategy<Value = TV> {
@@ -95,7 +98,13 @@ fn descriptor_strategy() -> impl Strategy<Value = TV> {
         }
         let mut doc = vec![("api".to_string(), TV::s("0.10")), ("buildpack".to_string(), TV::Table(bp))];
         if targets {
-            doc.push(("targets".into(), TV::Array(vec![TV::table(vec![("os", TV::s("linux")), ("arch", TV::s("arm64")), ("distros", TV::Array(vec![TV::table(vec![("name", TV::s("ubuntu")), ("version", TV::s("24.04"))])]))])])));
+            // declared targets, some of which coincide with the os/arch values the platform supplies in these cases — what
+            // the descriptor declares must never leak into the context's target
+            let mut ts = vec![TV::table(vec![("os", TV::s("linux")), ("arch", TV::s("arm64")), ("distros", TV::Array(vec![TV::table(vec![("name", TV::s("ubuntu")), ("version", TV::s("24.04"))])]))])];
+            for (os, arch) in [("linux", "linux"), ("linux", "v8"), ("v8", "linux"), ("v8", "v8"), ("", "")] {
+                ts.push(TV::table(vec![("os", TV::s(os)), ("arch", TV::s(arch)), ("variant", TV::s("declared-in-buildpack-toml")), ("distros", TV::Array(vec![]))]));
+            }
+            doc.push(("targets".into(), TV::Array(ts)));
         }
         if let Some(m) = metadata {
             doc.push(("metadata".into(), m));
